@@ -504,7 +504,7 @@ Definition cases : list (cli_config * cli_outcome) := [
 			}
 		}
 	}
-	runs += targetStage(meta, tier, base, bin)
+	runs += targetStage(meta, tier, base, bin, outDir)
 	runs += ruleFaultStage(meta, tier, base, rdir, bin)
 	runs += profileStage(meta, base, bin)
 	runs += crashStage(meta, tier, base, rdir, bin, outDir)
